@@ -621,7 +621,9 @@ func extractList(fd *ast.FuncDecl, recv string, lf *LangFacts, bad func(string, 
 }
 
 func extractMapping(fd *ast.FuncDecl, recv string, lf *LangFacts, bad func(string, ...interface{})) {
-	if len(fd.Body.List) != 2 {
+	// switch on the receiver, then `return nil` — either as the statement after the switch or as the
+	// switch's default clause
+	if len(fd.Body.List) != 2 && len(fd.Body.List) != 1 {
 		bad("mapping(): body is not switch + return")
 		return
 	}
@@ -634,21 +636,32 @@ func extractMapping(fd *ast.FuncDecl, recv string, lf *LangFacts, bad func(strin
 		bad("mapping(): switch tag is not the receiver")
 		return
 	}
-	rs, ok := fd.Body.List[1].(*ast.ReturnStmt)
-	if !ok || len(rs.Results) != 1 {
-		bad("mapping(): last statement is not a return")
-		return
+	isReturnNil := func(st ast.Stmt) bool {
+		rs, ok := st.(*ast.ReturnStmt)
+		if !ok || len(rs.Results) != 1 {
+			return false
+		}
+		n, ok := identName(rs.Results[0])
+		return ok && n == "nil"
 	}
-	if n, ok := identName(rs.Results[0]); ok && n == "nil" {
+	var defClause *ast.CaseClause
+	for _, st := range sw.Body.List {
+		if cc := st.(*ast.CaseClause); cc.List == nil {
+			defClause = cc
+		}
+	}
+	switch {
+	case len(fd.Body.List) == 2 && defClause == nil && isReturnNil(fd.Body.List[1]):
 		lf.MapDefault = "nil"
-	} else {
+	case len(fd.Body.List) == 1 && defClause != nil && len(defClause.Body) == 1 && isReturnNil(defClause.Body[0]):
+		lf.MapDefault = "nil"
+	default:
 		bad("mapping(): fall-through result is not nil")
 	}
 	for _, st := range sw.Body.List {
 		cc := st.(*ast.CaseClause)
 		if cc.List == nil {
-			bad("mapping(): unexpected default arm")
-			continue
+			continue // the default clause was handled above
 		}
 		arm := MapArm{Consts: caseNames(cc, bad)}
 		okArm := func() bool {
